@@ -1,4 +1,5 @@
 import Deb822Verif.Props.C19Bytes
+import Deb822Verif.Driver.Pgp
 /-!
 # C19 — CRLF / mixed line ends, separator and marker look-alikes
 
@@ -312,6 +313,26 @@ example : strip (renderCRLF ((wrap exHs exPs exSig).take 4)) = .error .MissingPg
 
 example : strip (renderCRLF (wrap exHs exPs exSig ++ [[]])) = .error .JunkAfterPgpSignature :=
   C19_junk_crlf _ _ _ exSide [[]] (by simp) (by intro l hl; simp at hl; subst hl; exact empty_ok)
+
+/-! ### the text the correspondence driver builds for `pgp.wrap … eol` is a `renderMixed` text -/
+
+/-- the lines paired with the line end the driver's rule `eol` gives line `i`, `i+1`, … -/
+def withEol (eol : String) : Nat → List Str → List (Str × Bool)
+  | _, [] => []
+  | i, l :: r => (l, Driver.Pgp.isCrlf eol i) :: withEol eol (i + 1) r
+
+theorem renderEol_eq (eol : String) (i : Nat) (ls : List Str) :
+    Driver.Pgp.renderEol eol i ls = renderMixed (withEol eol i ls) := by
+  induction ls generalizing i with
+  | nil => rfl
+  | cons l r ih => simp only [Driver.Pgp.renderEol, withEol, renderMixed, ih]
+
+theorem withEol_fst (eol : String) (i : Nat) (ls : List Str) : (withEol eol i ls).map Prod.fst = ls := by
+  induction ls generalizing i with
+  | nil => rfl
+  | cons l r ih => simp [withEol, ih]
+
+theorem driver_wrap_eq (hs ps sig : List Str) : Driver.Pgp.wrap hs ps sig = wrap hs ps sig := rfl
 
 /-! ### 5. white-space-only separator line (audit W1) -/
 
